@@ -20,6 +20,7 @@ HOST = b"h17.test"                     # fixed host name of the quoting half: ha
 # byte classes the quoting / parsing code distinguishes (see the checks' docstring)
 CLASSES_FULL = [120, 43, 46, 64, 32, 34, 92, 13, 9, 40, 41, 60, 62, 44, 58, 59, 91, 93, 233, 127, 1]
 CLASSES_CORE = [120, 46, 64, 32, 34, 92, 13, 9, 40, 60, 62, 44, 233]
+CLASSES_CORE12 = [120, 46, 64, 32, 34, 92, 13, 40, 60, 62, 44, 233]       # length 5 (thorough): without TAB
 
 
 def enum_locals(alpha, maxlen, minlen=0):
@@ -338,7 +339,7 @@ def base_env():
     return e
 
 
-def run_inject(tree, qq, tag, argv, msg, env_extra=None, timeout=30):
+def run_inject(tree, qq, tag, argv, msg, env_extra=None, timeout=60):
     """One run of the real qmail-inject with the recording queue stand-in.  Returns (rc, stdout)."""
     env = base_env()
     env.update(qq.env(tag))
@@ -350,27 +351,21 @@ def run_inject(tree, qq, tag, argv, msg, env_extra=None, timeout=30):
         out, err = p.communicate(msg, timeout=timeout)
     except subprocess.TimeoutExpired:
         p.kill()
-        out, err = p.communicate()
-        return -9, out
+        p.communicate()
+        raise Infra("qmail-inject %r did not finish within %ss (overloaded machine?)" % (argv[:3], timeout))
     return p.returncode, out
 
 
-def run_inject_print(tree, argv, msg, env_extra=None, timeout=30):
+def run_inject_print(tree, argv, msg, env_extra=None, timeout=60):
     env = base_env()
     if env_extra:
         env.update(env_extra)
-    p = subprocess.run([tree.bin("qmail-inject")] + argv, input=msg, stdout=subprocess.PIPE, stderr=subprocess.PIPE,
-                       env=env, cwd=tree.root, timeout=timeout)
+    try:
+        p = subprocess.run([tree.bin("qmail-inject")] + argv, input=msg, stdout=subprocess.PIPE, stderr=subprocess.PIPE,
+                           env=env, cwd=tree.root, timeout=timeout)
+    except subprocess.TimeoutExpired:
+        raise Infra("qmail-inject -n did not finish within %ss (overloaded machine?)" % timeout)
     return p.returncode, p.stdout
-
-
-def arg_roundtrip(tree, qq, tag, addrs):
-    """qmail-inject -a -- addr...: the recipients it hands to the queue, in order, or None per address."""
-    def once(t, batch):
-        rc, _ = run_inject(tree, qq, t, ["-a", "--"] + [bytes(a) for a in batch], b"Subject: t\n\n")
-        return rc
-    rc = once(tag, addrs)
-    return rc
 
 
 def smtp_wire_forms(tree, eps_queue, batches):
